@@ -31,22 +31,25 @@ import (
 
 type vpProv struct{ calls atomic.Int64 }
 
-func (p *vpProv) hit()                              { p.calls.Add(1) }
-func (p *vpProv) IsRunning() bool                   { return true } // used by the exempt probes: not counted
-func (p *vpProv) Stats() health.Stats               { return health.Stats{} }
-func (p *vpProv) ID() identity.AgentID              { p.hit(); return identity.AgentID{1} }
-func (p *vpProv) DisplayName() string               { p.hit(); return "x" }
-func (p *vpProv) GetPeerIDs() []identity.AgentID    { p.hit(); return nil }
-func (p *vpProv) GetKnownAgentIDs() []identity.AgentID { p.hit(); return nil }
-func (p *vpProv) GetPeerDetails() []health.PeerDetails { p.hit(); return nil }
-func (p *vpProv) GetRouteDetails() []health.RouteDetails { p.hit(); return nil }
-func (p *vpProv) GetDomainRouteDetails() []health.DomainRouteDetails { p.hit(); return nil }
-func (p *vpProv) GetAllDisplayNames() map[identity.AgentID]string { p.hit(); return nil }
+func (p *vpProv) hit()                                                    { p.calls.Add(1) }
+func (p *vpProv) IsRunning() bool                                         { return true } // used by the exempt probes: not counted
+func (p *vpProv) Stats() health.Stats                                     { return health.Stats{} }
+func (p *vpProv) ID() identity.AgentID                                    { p.hit(); return identity.AgentID{1} }
+func (p *vpProv) DisplayName() string                                     { p.hit(); return "x" }
+func (p *vpProv) GetPeerIDs() []identity.AgentID                          { p.hit(); return nil }
+func (p *vpProv) GetKnownAgentIDs() []identity.AgentID                    { p.hit(); return nil }
+func (p *vpProv) GetPeerDetails() []health.PeerDetails                    { p.hit(); return nil }
+func (p *vpProv) GetRouteDetails() []health.RouteDetails                  { p.hit(); return nil }
+func (p *vpProv) GetDomainRouteDetails() []health.DomainRouteDetails      { p.hit(); return nil }
+func (p *vpProv) GetAllDisplayNames() map[identity.AgentID]string         { p.hit(); return nil }
 func (p *vpProv) GetAllNodeInfo() map[identity.AgentID]*protocol.NodeInfo { p.hit(); return nil }
-func (p *vpProv) GetLocalNodeInfo() *protocol.NodeInfo { p.hit(); return nil }
-func (p *vpProv) GetSOCKS5Info() health.SOCKS5Info   { p.hit(); return health.SOCKS5Info{} }
-func (p *vpProv) GetUDPInfo() health.UDPInfo         { p.hit(); return health.UDPInfo{} }
-func (p *vpProv) GetPortForwardInfo() health.PortForwardInfo { p.hit(); return health.PortForwardInfo{} }
+func (p *vpProv) GetLocalNodeInfo() *protocol.NodeInfo                    { p.hit(); return nil }
+func (p *vpProv) GetSOCKS5Info() health.SOCKS5Info                        { p.hit(); return health.SOCKS5Info{} }
+func (p *vpProv) GetUDPInfo() health.UDPInfo                              { p.hit(); return health.UDPInfo{} }
+func (p *vpProv) GetPortForwardInfo() health.PortForwardInfo {
+	p.hit()
+	return health.PortForwardInfo{}
+}
 func (p *vpProv) GetPortForwardRouteDetails() []health.PortForwardRouteDetails { p.hit(); return nil }
 func (p *vpProv) SendControlRequest(ctx context.Context, t identity.AgentID, ct uint8) (*protocol.ControlResponse, error) {
 	p.hit()
